@@ -377,7 +377,43 @@ def recipe_topup_start(rng):
     return sc, pre
 
 
-RECIPES = {"on_demand_stop": recipe_on_demand_stop, "untracked_zombies": recipe_untracked_zombies,
+def recipe_signal_veto(rng):
+    """a before_signal hook that says no, and requests that name a signal — SIGKILL included, which no hook may hold back"""
+    outs = rng.choice([["false"], ["false", "true"], ["raise"], ["false", "false", "true"]])
+    sc = {"arb": {"warmup_ms": 0}, "behav": [{"term": rng.choice([["obey", 0], ["ignore"]]), "kill_lat": rng.choice([0, 1])}],
+          "watchers": [_w("a", np=rng.choice([1, 2]), graceful_ms=rng.choice([100, 300]),
+                          hooks={"before_signal": {"out": outs, "ignore": rng.random() < 0.3}})]}
+    pre = [["start"]] + [["wake"]] * 4
+    for i in range(rng.choice([1, 2, 3])):
+        sg = rng.choice([9, 9, 15, 2, 10])
+        if rng.random() < 0.6:
+            props = {"name": "a", "signum": sg}
+            if rng.random() < 0.5:
+                pre.append((lambda pr: (lambda v: ["req", {"command": "signal", "id": "qs", "properties":
+                                                         dict(pr, pid=(v.pids.get("a") or [100])[0])}, 0]))(props))
+            else:
+                pre.append(_req("signal", "qs%d" % i, **props))
+        else:
+            pre.append(_req("kill", "qk%d" % i, name="a", signum=sg, waiting=rng.random() < 0.5))
+        pre += [["wake"]] * rng.choice([1, 3])
+    pre += [["check"], ["wake"]]
+    return sc, pre
+
+
+def recipe_singleton_set(rng):
+    """a singleton watcher and requests that try to give it more than one process"""
+    sc = {"arb": {"warmup_ms": 0}, "behav": [{"term": ["obey", 0], "kill_lat": 0}],
+          "watchers": [_w("a", np=1, singleton=True), _w("B", np=rng.choice([1, 2]), priority=-1)]}
+    pre = [["start"]] + [["wake"]] * 5
+    if rng.random() < 0.4:
+        pre += [_req("stop", "q0", name="a", waiting=True), ["wake"], ["wake"]]
+    opts = rng.choice([{"numprocesses": 3}, {"numprocesses": 2, "graceful_timeout": 0.1}, {"warmup_delay": 0, "numprocesses": 5}])
+    pre += [_req("set", "q1", name="a", options=opts), ["wake"], ["check"], ["wake"], ["wake"]]
+    pre += [_req(rng.choice(["incr", "decr"]), "q2", name="a", nb=rng.choice([1, 2])), ["wake"], ["check"], ["wake"]]
+    return sc, pre
+
+
+RECIPES = {"signal_veto": recipe_signal_veto, "singleton_set": recipe_singleton_set, "on_demand_stop": recipe_on_demand_stop, "untracked_zombies": recipe_untracked_zombies,
            "topup_start": recipe_topup_start}
 
 
